@@ -36,6 +36,10 @@ pub struct LRec {
 }
 
 pub static LLOG: Mutex<Vec<LRec>> = Mutex::new(Vec::new());
+/// Reentrancy: span handles a layer keeps on behalf of another span and releases in that span's `on_close`
+/// (keyed by the id of the span whose close releases them; the outermost recording layer of stack 0 does it).
+pub static RELEASE_ON_CLOSE: Mutex<Vec<(u64, tracing::Span)>> = Mutex::new(Vec::new());
+
 thread_local! {
     /// fault injection: the next `on_exit` of the outermost recording layer (layer 1) on this thread panics,
     /// after every layer has been told about the exit
@@ -260,6 +264,26 @@ where
             None => r.flag = false,
         }
         self.push(r);
+        if self.stack == 0 && self.layer == 1 {
+            // taken out under the mutex, dropped outside it: each drop re-enters the collector (try_close)
+            let mine: Vec<tracing::Span> = {
+                let mut held = RELEASE_ON_CLOSE.lock().unwrap();
+                let mut out = vec![];
+                let mut k = 0;
+                while k < held.len() {
+                    if held[k].0 == id.into_u64() {
+                        out.push(held.remove(k).1);
+                    } else {
+                        k += 1;
+                    }
+                }
+                out
+            };
+            if !mine.is_empty() {
+                crate::fw::fault("handle_dropped_inside_on_close");
+            }
+            drop(mine);
+        }
     }
     fn on_id_change(&self, old: &Id, new: &Id, _ctx: Context<'_, C>) {
         self.push(LRec { kind: "on_id_change", id: old.into_u64(), id2: new.into_u64(), ..Default::default() });
